@@ -113,7 +113,17 @@ func TestC12CallbackLeak(t *testing.T) {
 				time.Sleep(20 * time.Millisecond)
 				r.collect(s)
 			}
-			ended = append(ended, gone{s, r.head})
+			// with bolt a Put can wait for the stream's open read transaction and complete only now: it belongs to the time before
+			// the stream returned (its callback may legitimately have seen it)
+			for n := 0; n < 600 && r.putBusy != nil; n++ {
+				r.pollPut()
+				time.Sleep(5 * time.Millisecond)
+			}
+			headEnd := r.head
+			if r.putBusy != nil && r.putRound > headEnd {
+				headEnd = r.putRound
+			}
+			ended = append(ended, gone{s, headEnd})
 		}
 		// later beacons: nobody is connected any more
 		for p := 0; p < 3; p++ {
